@@ -1,0 +1,104 @@
+//go:build verif
+
+package service
+
+// Contracts for the deductive verifier in /verif (govc); comments only.
+
+/*@
+// shutdown (property C18).  The ghost event log records the calls made
+// through the service interface, in order: every registered service is shut
+// down exactly once, last registered first, whether or not earlier ones
+// failed, and the status is success exactly when every call returned nil.
+func (*SignalHandler).shutdown
+  requires h != nil && h.logger != nil
+  requires services_set: forall i in 0..len(h.services): h.services[i] != nil
+  may_panic
+  ensures every_service_once: events() == old(events()) + len(h.services)
+  ensures reverse_order: forall k in 0..len(h.services):
+    evis(old(events()) + k, "github.com/AdguardTeam/golibs/service.Shutdowner.Shutdown") &&
+    evarg("github.com/AdguardTeam/golibs/service.Shutdowner.Shutdown", old(events()) + k, 0) == h.services[len(h.services) - 1 - k]
+  ensures success_iff_all_nil: status == 0 <==>
+    (forall k in 0..len(h.services): evres("github.com/AdguardTeam/golibs/service.Shutdowner.Shutdown", old(events()) + k, 0) == nil)
+  ensures status_is_exit_code: status == 0 || status == 1
+  loop 0
+    invariant index: -1 <= i && i < len(h.services)
+    invariant count: events() == old(events()) + (len(h.services) - 1 - i)
+    invariant order: forall k in 0..len(h.services) - 1 - i:
+      evis(old(events()) + k, "github.com/AdguardTeam/golibs/service.Shutdowner.Shutdown") &&
+      evarg("github.com/AdguardTeam/golibs/service.Shutdowner.Shutdown", old(events()) + k, 0) == h.services[len(h.services) - 1 - k]
+    invariant status_so_far: (status == 0 || status == 1) && (status == 0 <==>
+      (forall k in 0..len(h.services) - 1 - i: evres("github.com/AdguardTeam/golibs/service.Shutdowner.Shutdown", old(events()) + k, 0) == nil))
+    decreases i + 1
+
+// Handle: signals that are not shutdown signals are ignored (no service is
+// touched); the first shutdown signal runs shutdown once and its status is
+// returned.  A panic raised by a service is recovered by the deferred
+// handler: the named result must not read "success" at that moment.
+func (*SignalHandler).Handle
+  requires h != nil && h.logger != nil && ctx != nil
+  requires services_set: forall i in 0..len(h.services): h.services[i] != nil
+  panics may: when the signal channel is closed (never done by this package)
+  // the events are the IsShutdownSignal tests of the received signals, then
+  // the Shutdown calls
+  recovers success_only_after_complete_shutdown: status == 0 ==>
+    events() == calls("osutil.IsShutdownSignal") + len(h.services) &&
+    (forall k in 0..len(h.services): evres("github.com/AdguardTeam/golibs/service.Shutdowner.Shutdown", calls("osutil.IsShutdownSignal") + k, 0) == nil)
+  ensures only_on_shutdown_signal: calls("osutil.IsShutdownSignal") >= 1 && callres("osutil.IsShutdownSignal", 0)
+  ensures all_shut_down: events() == calls("osutil.IsShutdownSignal") + len(h.services)
+  ensures reverse_order: forall k in 0..len(h.services):
+    evis(calls("osutil.IsShutdownSignal") + k, "github.com/AdguardTeam/golibs/service.Shutdowner.Shutdown") &&
+    evarg("github.com/AdguardTeam/golibs/service.Shutdowner.Shutdown", calls("osutil.IsShutdownSignal") + k, 0) == h.services[len(h.services) - 1 - k]
+  ensures success_iff_all_nil: status == 0 <==>
+    (forall k in 0..len(h.services): evres("github.com/AdguardTeam/golibs/service.Shutdowner.Shutdown", calls("osutil.IsShutdownSignal") + k, 0) == nil)
+  loop 0
+    invariant nothing_before_shutdown_signal: events() == calls("osutil.IsShutdownSignal")
+    invariant ignored_so_far: calls("osutil.IsShutdownSignal") > 0 ==> !callres("osutil.IsShutdownSignal", 0)
+
+// ---------------------------------------------------------------------------
+// RefreshWorker (property C18), single-goroutine view: which calls the worker
+// makes through its interfaces and in which order.  When the timer fires and
+// how goroutines interleave is outside these contracts.
+
+spec fn workerOK(w *RefreshWorker) bool =
+  w != nil && w.contextCons != nil && w.refr != nil && w.errHdlr != nil && w.schedule != nil && w.clock != nil
+  inline
+
+// refresh: a context from the constructor, one Refresh with it, its error.
+func (*RefreshWorker).refresh
+  requires workerOK(w)
+  ensures two_calls: events() == old(events()) + 2
+  ensures context_from_constructor: evis(old(events()), "github.com/AdguardTeam/golibs/contextutil.Constructor.New") &&
+    evarg("github.com/AdguardTeam/golibs/contextutil.Constructor.New", old(events()), 0) == w.contextCons && evarg("github.com/AdguardTeam/golibs/contextutil.Constructor.New", old(events()), 1) == ctx
+  ensures refreshes_with_it: evis(old(events()) + 1, "github.com/AdguardTeam/golibs/service.Refresher.Refresh") &&
+    evarg("github.com/AdguardTeam/golibs/service.Refresher.Refresh", old(events()) + 1, 0) == w.refr &&
+    evarg("github.com/AdguardTeam/golibs/service.Refresher.Refresh", old(events()) + 1, 1) == evres("github.com/AdguardTeam/golibs/contextutil.Constructor.New", old(events()), 0)
+  ensures returns_its_error: err == evres("github.com/AdguardTeam/golibs/service.Refresher.Refresh", old(events()) + 1, 0)
+
+func (*RefreshWorker).Shutdown
+  requires workerOK(w)
+  ensures no_refresh_unless_configured: !w.refrOnShutdown ==> events() == old(events()) && err == nil
+  ensures final_refresh_once: w.refrOnShutdown ==> events() == old(events()) + 2 &&
+    evis(old(events()) + 1, "github.com/AdguardTeam/golibs/service.Refresher.Refresh") && evarg("github.com/AdguardTeam/golibs/contextutil.Constructor.New", old(events()), 1) == ctx &&
+    (err == nil <==> evres("github.com/AdguardTeam/golibs/service.Refresher.Refresh", old(events()) + 1, 0) == nil)
+
+// refreshInALoop: every event is explained by the one before it.
+func (*RefreshWorker).refreshInALoop
+  requires workerOK(w)
+  loop 0
+    invariant starts_with_schedule: events() >= 2 && evis(0, "github.com/AdguardTeam/golibs/timeutil.Clock.Now") && evis(1, "github.com/AdguardTeam/golibs/timeutil.Schedule.UntilNext")
+    invariant wait_is_latest_schedule_answer: evis(events() - 1, "github.com/AdguardTeam/golibs/timeutil.Schedule.UntilNext") && waitDur == evres("github.com/AdguardTeam/golibs/timeutil.Schedule.UntilNext", events() - 1, 0)
+    invariant delay_from_schedule: forall k in 1..events(): evis(k, "github.com/AdguardTeam/golibs/timeutil.ClockAfter.After") ==>
+      evis(k - 1, "github.com/AdguardTeam/golibs/timeutil.Schedule.UntilNext") && evarg("github.com/AdguardTeam/golibs/timeutil.ClockAfter.After", k, 1) == evres("github.com/AdguardTeam/golibs/timeutil.Schedule.UntilNext", k - 1, 0) && evarg("github.com/AdguardTeam/golibs/timeutil.ClockAfter.After", k, 0) == w.clock
+    invariant schedule_asked_with_now: forall k in 1..events(): evis(k, "github.com/AdguardTeam/golibs/timeutil.Schedule.UntilNext") ==>
+      evis(k - 1, "github.com/AdguardTeam/golibs/timeutil.Clock.Now") && evarg("github.com/AdguardTeam/golibs/timeutil.Schedule.UntilNext", k, 1) == evres("github.com/AdguardTeam/golibs/timeutil.Clock.Now", k - 1, 0) && evarg("github.com/AdguardTeam/golibs/timeutil.Schedule.UntilNext", k, 0) == w.schedule
+    invariant refresh_after_timer: forall k in 1..events(): evis(k, "github.com/AdguardTeam/golibs/contextutil.Constructor.New") ==> evis(k - 1, "github.com/AdguardTeam/golibs/timeutil.ClockAfter.After") && evarg("github.com/AdguardTeam/golibs/contextutil.Constructor.New", k, 1) == ctx
+    invariant refresh_with_new_context: forall k in 1..events(): evis(k, "github.com/AdguardTeam/golibs/service.Refresher.Refresh") ==>
+      evis(k - 1, "github.com/AdguardTeam/golibs/contextutil.Constructor.New") && evarg("github.com/AdguardTeam/golibs/service.Refresher.Refresh", k, 1) == evres("github.com/AdguardTeam/golibs/contextutil.Constructor.New", k - 1, 0) && evarg("github.com/AdguardTeam/golibs/service.Refresher.Refresh", k, 0) == w.refr
+    invariant handler_gets_the_error: forall k in 1..events(): evis(k, "github.com/AdguardTeam/golibs/service.ErrorHandler.Handle") ==>
+      evis(k - 1, "github.com/AdguardTeam/golibs/service.Refresher.Refresh") && evarg("github.com/AdguardTeam/golibs/service.ErrorHandler.Handle", k, 2) == evres("github.com/AdguardTeam/golibs/service.Refresher.Refresh", k - 1, 0) && evres("github.com/AdguardTeam/golibs/service.Refresher.Refresh", k - 1, 0) != nil &&
+      evarg("github.com/AdguardTeam/golibs/service.ErrorHandler.Handle", k, 0) == w.errHdlr
+    invariant every_error_handled_once: forall k in 0..events() - 1: evis(k, "github.com/AdguardTeam/golibs/service.Refresher.Refresh") ==>
+      (evres("github.com/AdguardTeam/golibs/service.Refresher.Refresh", k, 0) != nil ? evis(k + 1, "github.com/AdguardTeam/golibs/service.ErrorHandler.Handle") : evis(k + 1, "github.com/AdguardTeam/golibs/timeutil.Clock.Now"))
+    invariant reschedules_after_refresh: forall k in 0..events() - 1: evis(k, "github.com/AdguardTeam/golibs/service.ErrorHandler.Handle") ==> evis(k + 1, "github.com/AdguardTeam/golibs/timeutil.Clock.Now")
+    invariant timer_leads_to_refresh: forall k in 0..events() - 1: evis(k, "github.com/AdguardTeam/golibs/timeutil.ClockAfter.After") ==> evis(k + 1, "github.com/AdguardTeam/golibs/contextutil.Constructor.New")
+@*/
